@@ -14,6 +14,7 @@ package main
 // self-delimiting.
 
 import (
+	yaml "gopkg.in/yaml.v2"
 	"bytes"
 	"encoding/base64"
 	"encoding/json"
@@ -709,7 +710,29 @@ func (in *Interp) ropeEq(x, y Str) *Term {
 				tokSide, byteSide = ys, xs
 			}
 			if tokSide[0].tok.yaml {
-				panic(unsupported("comparing YAML token with bytes"))
+				// a YAML token is the text yaml.Marshal emits for a value and extends to the end
+				// of the text: the bytes equal it iff they are the canonical rendering of an
+				// equal value
+				if len(tokSide) != 1 {
+					panic(unsupported("comparing YAML token followed by more text with bytes"))
+				}
+				var all []byte
+				for _, e := range byteSide {
+					if e.tok != nil || !e.b.IsConst() {
+						panic(unsupported("comparing YAML token with symbolic bytes"))
+					}
+					all = append(all, byte(e.b.val))
+				}
+				var yv interface{}
+				if err := yaml.Unmarshal(all, &yv); err != nil {
+					return tt.F
+				}
+				canon, err := yaml.Marshal(yv)
+				if err != nil || string(canon) != string(all) {
+					return tt.F
+				}
+				cs = append(cs, in.jvalEq(tokSide[0].tok.val, jvalOfYamlNative(in, yv)))
+				return tt.And(cs...)
 			}
 			var run []byte
 			for _, e := range byteSide {
